@@ -72,3 +72,27 @@ Example scanner_exact_example :
 Proof.
   split; [repeat constructor|vm_compute; reflexivity].
 Qed.
+
+(* ---- the loop shells: each scanner loop of swar.rs / sse42.rs / avx2.rs / neon.rs, translated statement by
+   statement on this run (Generated/Loops.v: guard, block load as a CHECKED operation, kernel call, advance,
+   early return, hand-over to the word-at-a-time scanner), is the loop Scan.v defines and Backends.v
+   instantiates -- so the scanners `scanner_exact` speaks about are the translated source ---- *)
+From HV Require Import Imp ImpLib.
+From HV.Generated Require Import Loops.
+From HV.Proofs Require Import TieLoops.
+Theorem loop_shells_as_translated : forall W fb fuel c,
+  gl_swar_uri W fuel c = swar_uri W fuel c /\ gl_swar_value W fuel c = swar_value W fuel c /\
+  gl_swar_name W fuel c = swar_name W fuel c /\
+  gl_sse42_uri fb fuel c = sse42_match_uri_vectored fb fuel c /\
+  gl_sse42_value fb fuel c = sse42_match_header_value_vectored fb fuel c /\
+  gl_avx2_uri fb fuel c = avx2_match_uri_vectored fb fuel c /\
+  gl_avx2_value fb fuel c = avx2_match_header_value_vectored fb fuel c /\
+  gl_neon_uri fb fuel c = neon_match_uri_vectored fb fuel c /\
+  gl_neon_value fb fuel c = neon_match_header_value_vectored fb fuel c /\
+  gl_neon_name fb fuel c = neon_match_header_name_vectored fb fuel c.
+Proof.
+  intros. repeat split; first [apply tie_swar_uri | apply tie_swar_value | apply tie_swar_name | apply tie_sse42_uri
+    | apply tie_sse42_value | apply tie_avx2_uri | apply tie_avx2_value | apply tie_neon_uri | apply tie_neon_value
+    | apply tie_neon_name].
+Qed.
+Print Assumptions loop_shells_as_translated.
